@@ -232,7 +232,56 @@ fn direct_api(ctx: &mut Ctx, input: &[u8]) {
 
 pub const LIST_SOUP: &[&[u8]] = &[b"@", b"1", b"!", b":", b",", b"-", b"+", b"'", b"\"", b"2", b" ", b"a", b".", b"e", b"99999999999999999999", b"\xff", b"(", b")"];
 
+/// Well-formed messages of thousands of units that all execute (a download script sent as one message): returns normally
+/// whatever the number of units - in particular the depth of the native stack does not grow with it.
+fn many_units(cfg: &Cfg, rep: &mut Report) {
+    if cfg.tiny || (!cfg.stages.is_empty() && !cfg.stages.iter().any(|s| s == "many-units")) {
+        return;
+    }
+    run_cases(cfg, "many-units", cfg.n(1, 96, 960), rep, |rng, ctx| {
+        bump(ctx, 1);
+        let k = match rng.usize(7) {
+            0 => 3_000 + rng.usize(2_000),
+            1 => 14_000 + rng.usize(4_000),
+            2 => 30_000 + rng.usize(10_000),
+            3 => 65_530 + rng.usize(12),
+            4 => 120_000 + rng.usize(20_000),
+            _ => 500 + rng.usize(20_000),
+        };
+        let scripts = vec![Script { id: 0, omnivore: true, emit: vec![Val::U8(1)], ..Default::default() }, Script { id: 1, omnivore: true, emit: vec![Val::U8(2), Val::U8(3)], ..Default::default() }];
+        let specs = vec![Spec::leaf(b"A", false, 0), Spec::leaf(b"B", false, 1)];
+        let built: Built<Dev, Script> = Built::new(&specs, scripts);
+        let mut msg: Vec<u8> = Vec::with_capacity(k * 5);
+        let mut queries = 0usize;
+        for i in 0..k {
+            if i > 0 {
+                msg.push(b';');
+            }
+            let u: &[u8] = *rng.pick(&[&b"A"[..], b"A?", b"B 1,2", b"B?", b":A", b":B? 5", b"a 'x'"]);
+            if u.contains(&b'?') {
+                queries += 1;
+            }
+            msg.extend_from_slice(u);
+        }
+        if rng.bool() {
+            msg.push(b'\n');
+        }
+        ctx.nontrivial(hash_bytes(&msg));
+        ctx.count(&format!("many-units.units.{}", if k < 5_000 { "<5000" } else if k < 21_000 { "5000-21000" } else if k < 60_000 { "30000-40000" } else if k < 70_000 { "~2^16" } else { ">=120000" }));
+        let mut dev = Dev::new();
+        let mut c = scpi::Context::default();
+        let mut resp: Vec<u8> = Vec::new();
+        let r = built.root().run(&msg, &mut dev, &mut c, &mut resp);
+        let answers = if resp.is_empty() { 0 } else { resp.iter().filter(|b| **b == b';').count() + 1 };
+        if r.is_err() || answers != queries {
+            ctx.violation("C01:many-units:well-formed-message-fails-or-loses-units", jobj(&[("units", k.to_string()), ("queries", queries.to_string()), ("answers", answers.to_string()), ("result", jstr(&format!("{:?}", r.map_err(|e| e.get_code()))))]));
+        }
+        ctx.add("many-units.units-executed", k as u64);
+    });
+}
+
 pub fn run(cfg: &Cfg, rep: &mut Report) {
+    many_units(cfg, rep);
     // (0) hand-picked boundary inputs x every conversion kind as first parameter x formatter capacities
     let bi = boundary_inputs();
     run_cases(cfg, "boundary", bi.len() as u64, rep, |_rng, ctx| {
